@@ -120,23 +120,23 @@ type nodeWorld struct {
 	beforeItem     []func(it Item)
 	atEnd          []func()
 
-	lastSnap *snapshot
+	lastSnap       *snapshot
 	lastDisconnect map[peer.ID]time.Duration
 	streamsGoneAt  map[peer.ID]time.Duration
-	vals     []*simValidator
-	valCalls []valCall
-	keyRng   *prng
-	msgSeq   int
-	sent     map[string]*pb.Message // messages sent by fakes, by id
-	sentBy   map[string]map[peer.ID]bool
-	sentAt   map[string]time.Duration // first time a message id was sent by a scripted peer
-	extraOps map[string]func(it Item)
+	vals           []*simValidator
+	valCalls       []valCall
+	keyRng         *prng
+	msgSeq         int
+	sent           map[string]*pb.Message // messages sent by fakes, by id
+	sentBy         map[string]map[peer.ID]bool
+	sentAt         map[string]time.Duration // first time a message id was sent by a scripted peer
+	extraOps       map[string]func(it Item)
 
-	teeTracers func(mem EventTracer) EventTracer
-	ghost      func(topic string, data []byte) *pb.Message // message authored by an unconnected identity
-	onFakePub func(fp *fakePeer, m *pb.Message)
-	localHook func(topic string, data []byte, c *call)
-	localMids map[string]string // payload -> message id of local publications (seen by validators)
+	teeTracers     func(mem EventTracer) EventTracer
+	ghost          func(topic string, data []byte) *pb.Message // message authored by an unconnected identity
+	onFakePub      func(fp *fakePeer, m *pb.Message)
+	localHook      func(topic string, data []byte, c *call)
+	localMids      map[string]string // payload -> message id of local publications (seen by validators)
 	localDelivered map[string]int
 }
 
